@@ -15,8 +15,8 @@ import (
 
 func init() {
 	fw.Register(&fw.Check{
-		ID: "C02",
-		Rule: "cases: a valid previous state (built by a valid create) and one update / recover / deactivate carrying exactly one labelled tampering: every bit of the decoded signature (all bits for one operation per key type and operation type, strided otherwise); each signed-payload field re-encoded with a changed value without re-signing; key substitution without re-signing / re-signed with honest reveal / re-signed with matching reveal (self-consistent => must be accepted); reveal substitution; delta substitution; typ/crit/b64/x5c headers with and without re-signing; alg none / unknown / other-allowed; truncated, padded, emptied, dropped and duplicated compact segments. Oracle: the conjunction sigValid & revealMatchesKey & headersOnlyAlgKid & algAllowed & (deltaBound | suffixEqual) known from the label decides refused / degraded / applied; the resulting state is compared in full with the C01 model. distinct = (operation type, key type, tampering class, outcome).",
+		ID:          "C02",
+		Rule:        "cases: a valid previous state (built by a valid create) and one update / recover / deactivate carrying exactly one labelled tampering: every bit of the decoded signature (all bits for one operation per key type and operation type, strided otherwise); each signed-payload field re-encoded with a changed value without re-signing; key substitution without re-signing / re-signed with honest reveal / re-signed with matching reveal (self-consistent => must be accepted); reveal substitution; delta substitution; typ/crit/b64/x5c headers with and without re-signing; alg none / unknown / other-allowed; truncated, padded, emptied, dropped and duplicated compact segments. Oracle: the conjunction sigValid & revealMatchesKey & headersOnlyAlgKid & algAllowed & (deltaBound | suffixEqual) known from the label decides refused / degraded / applied; the resulting state is compared in full with the C01 model. distinct = (operation type, key type, tampering class, outcome).",
 		Assumptions: []string{"forgery resistance of the signature schemes (a tampered signature is invalid)", "harness state machine and patch model"},
 		Require:     []string{"steps", "signature-bits", "outcome:refused:signature", "outcome:refused:parse", "outcome:degraded:delta-not-bound", "outcome:applied", "tampered-accepted-expected"},
 		Workers:     func(string) int { return 15 },
@@ -319,6 +319,26 @@ func runC02(r *fw.Runner) {
 						runHistory(c, plan, kt, uint64(18+c.Rng.Intn(2)), true, "C01")
 					})
 				}
+			}
+		}
+	}
+	// the shared labelled failure classes (reveal / header / key / hash-spelling / truncated-digest classes …) as tamperings too
+	for _, typ := range []byte("urd") {
+		typ := typ
+		for ci, fc := range classesFor(typ) {
+			fc := fc
+			if fc.name == "unknown-operation-type" {
+				continue
+			}
+			for ki, kt := range keyTypes {
+				kt := kt
+				if !r.Thorough && (ci+ki)%3 != 0 {
+					continue
+				}
+				r.Case("class-"+typeName(typ), func(c *fw.Case) {
+					c.Sig(fc.name, typ, kt)
+					runHistory(c, []planEntry{{'c', "valid", nil}, {typ, fc.name, nil}}, kt, uint64(18+c.Rng.Intn(2)), true, "C01")
+				})
 			}
 		}
 	}
